@@ -34,6 +34,29 @@ class NetStream(Stream):
                         d["expo"] = [x for x in d["expo"] if (x[0], x[1]) not in (fr[0], fr[1])]
                         d["selfconn"] = True
                         break
+            elif rng.random() < self.selfconn_p or i in (7, 8, 9, 10):
+                # malformed: a pin that already has a link gets a second one (must be rejected, both building styles)
+                used = [tuple(x) for c in d["conns"] for x in c]
+                free = [(c, k) for c, comp in enumerate(d["comps"]) for k in range(comp["n"]) if (c, k) not in used]
+                cand = [(u, f) for u in used for f in free if f[0] != u[0]]
+                if cand:
+                    u, f = rng.choice(cand)
+                    d["conns"].append([list(u), list(f)] if rng.random() < 0.5 else [list(f), list(u)])
+                    d["expo"] = [x for x in d["expo"] if (x[0], x[1]) != f]
+                    d["duppin"] = True
+                    if i in (7, 8):
+                        d["style"] = "ctor"
+            if i in (3, 4, 5, 6) and not d.get("selfconn") and not d.get("duppin"):
+                # the same malformed self-link, in each building style (constructor and with-block)
+                used = {tuple(x) for c in d["conns"] for x in c}
+                for c, comp in enumerate(d["comps"]):
+                    fr = [(c, k) for k in range(comp["n"]) if (c, k) not in used]
+                    if len(fr) >= 2:
+                        d["conns"].append([list(fr[0]), list(fr[1])])
+                        d["expo"] = [x for x in d["expo"] if (x[0], x[1]) not in (fr[0], fr[1])]
+                        d["selfconn"] = True
+                        d["style"] = "ctor" if i in (3, 4) else "with"
+                        break
             out.append(d)
         return out
 
@@ -56,7 +79,7 @@ class NetStream(Stream):
     def classify(self, d):
         multi = len({(min(a[0], b[0]), max(a[0], b[0])) for a, b in d["conns"]}) < len(d["conns"])
         return "c%d/l%d/e%d%s%s" % (len(d["comps"]), len(d["conns"]), len(d["expo"]),
-                                    "/multi" if multi else "", "/self" if d.get("selfconn") else "")
+                                    "/multi" if multi else "", "/self" if d.get("selfconn") else "/dup" if d.get("duppin") else "")
 
     def shrink(self, d):
         return netlib.shrink_netlist(d)
